@@ -200,6 +200,32 @@ fn sock_err(e: &io::Error) -> String {
     format!("err{}{}", kind_index(e.kind()), if e.raw_os_error().is_some() { "" } else { "!" })
 }
 
+/// constructors given an address argument that resolves to nothing: an error (InvalidInput), never a panic
+fn run_ctor_empty() -> String {
+    let mut out = Vec::new();
+    let empty: [std::net::SocketAddr; 0] = [];
+    for which in 0..3 {
+        let sock = match UdpSocket::bind("127.0.0.1:0") {
+            Ok(s) => s,
+            Err(_) => return "setup-failed".to_string(),
+        };
+        let r = catch_unwind(AssertUnwindSafe(|| match which {
+            0 => UdpMetricSink::from(&empty[..], sock).map(|_| ()),
+            1 => BufferedUdpMetricSink::from(&empty[..], sock).map(|_| ()),
+            _ => BufferedUdpMetricSink::with_capacity(&empty[..], sock, 64).map(|_| ()),
+        }));
+        out.push(match r {
+            Err(_) => "panic".to_string(),
+            Ok(Ok(())) => "built".to_string(),
+            Ok(Err(e)) => match e.kind() {
+                cadence::ErrorKind::InvalidInput => "inv".to_string(),
+                _ => "io".to_string(),
+            },
+        });
+    }
+    out.join(",")
+}
+
 /// one thread emits a metric and flushes, and then expects that metric on the wire; three other threads do
 /// nothing but flush.  Whatever the interleaving, once the emitter's own flush has returned Ok its metric has
 /// been sent (C06 under concurrency, C12).
@@ -943,6 +969,9 @@ fn run_line(line: &str) -> Option<String> {
         if f[0] == "sockbig" && f.len() == 2 {
             return Some(format!("{} => {}", l, run_big(f[1])));
         }
+        if f[0] == "sockctor" {
+            return Some(format!("sockctor => {}", run_ctor_empty()));
+        }
         if f[0] == "sockflushrace" && f.len() == 3 {
             return Some(format!("{} => {}", l, run_flushrace(f[1], f[2].parse().unwrap_or(1000))));
         }
@@ -1138,6 +1167,8 @@ fn main() {
         writeln!(out, "sockstrace {} => {}", kind, run_strace(kind)).unwrap();
         count += 1;
     }
+    writeln!(out, "sockctor => {}", run_ctor_empty()).unwrap();
+    count += 1;
     for kind in ["budp", "bunix"] {
         let n = if tier == "quick" { 100000 } else { 2000000 };
         writeln!(out, "sockflushrace {} {} => {}", kind, n, run_flushrace(kind, n)).unwrap();
